@@ -326,6 +326,7 @@ def _task(pmod, sub, tier, seed, shard, nshards, marker_path):
         rec.marker = open(marker_path, "w")
     t0 = time.time()
     out = {"sub": sub.name, "shard": shard, "failure": None, "harness_error": None}
+    linecov = _linecov_start() if os.environ.get("VFW_LINECOV") else None
     try:
         build.load_catii(sub.variant)
         if sub.runner is not None:
@@ -350,9 +351,39 @@ def _task(pmod, sub, tier, seed, shard, nshards, marker_path):
         )
     finally:
         run_cleanup()
+        if linecov is not None:
+            _linecov_dump(linecov, "%s.%s.%d" % (getattr(pmod, "PROPERTY", "?"), sub.name, shard))
     out["rec"] = rec.export()
     out["wall"] = time.time() - t0
     return out
+
+
+def _linecov_start():
+    """Self-audit aid (tools/linecov.py): record which lines of the catii package a sub-check executes."""
+    seen = set()
+    mon = sys.monitoring
+    tool = mon.COVERAGE_ID
+    try:
+        mon.use_tool_id(tool, "vfw-linecov")
+    except ValueError:
+        return None
+
+    def on_line(code, line):
+        fn = code.co_filename
+        if os.sep + "catii" + os.sep in fn:
+            seen.add((os.path.basename(fn), line))
+        return mon.DISABLE
+
+    mon.register_callback(tool, mon.events.LINE, on_line)
+    mon.set_events(tool, mon.events.LINE)
+    return seen
+
+
+def _linecov_dump(seen, tag):
+    d = os.environ["VFW_LINECOV"]
+    os.makedirs(d, exist_ok=True)
+    with open(os.path.join(d, tag + ".json"), "w") as f:
+        json.dump(sorted(seen), f)
 
 
 def _asan_summary(stderr):
